@@ -411,6 +411,31 @@ def check_path_api(ctx, paths, kind, fortran, via_views, retrace=None):
             continue
         if r.fermat_path != fp:
             out.append(("violate", f"path {k}: attached rays belong to another path"))
+        # secondary doors: the reported points as coordinates, the path as a FermatPath, the solver built from views
+        if p_.to_fermat_path() != fp:
+            out.append(("violate", f"path {k}: Path.to_fermat_path() is not the path's point sets and leg velocities"))
+        ii, jj = r.times.shape[0] - 1, r.times.shape[1] - 1
+        one = r.get_coordinates_one(ii, jj).coords
+        want_one = np.array([itf.points.coords[int(r.indices[q_, ii, jj])] for q_, itf in enumerate(p_.interfaces)])
+        if one.shape != want_one.shape or not np.array_equal(one, want_one):
+            out.append(("violate", f"path {k}: get_coordinates_one({ii}, {jj}) is not the list of the reported points of that ray"))
+        for q_ in range(len(p_.interfaces)):
+            (x_, y_, z_), = list(r.get_coordinates(q_))
+            pc = p_.interfaces[q_].points.coords[np.asarray(r.indices[q_])]
+            if not (np.array_equal(x_, pc[..., 0]) and np.array_equal(y_, pc[..., 1]) and np.array_equal(z_, pc[..., 2])):
+                out.append(("violate", f"path {k}: get_coordinates({q_}) is not the coordinates of the reported points at interface {q_}"))
+                break
+    if via_views and paths:
+        views2 = [arim.View(p_, paths[(k + 1) % len(paths)], f"w{k}") for k, p_ in enumerate(paths)]
+        try:
+            res = ray.FermatSolver.from_views(views2).solve()
+            for p_ in paths:
+                fpv = p_.to_fermat_path()
+                if fpv not in res or not np.array_equal(res[fpv].times, p_.rays.times):
+                    out.append(("violate", "FermatSolver.from_views(views).solve() does not give, for each path of the views, the times ray tracing attached"))
+                    break
+        except Exception as e:
+            out.append(("violate", f"FermatSolver.from_views raised {type(e).__name__}: {str(e)[:80]}"))
         if fortran and not (r.times.flags.f_contiguous and r.indices.flags.f_contiguous):
             out.append(("violate", f"path {k}: Fortran order requested, arrays are not Fortran-contiguous"))
     return out
